@@ -312,10 +312,10 @@ def replay(ctx, case):
 
 
 SUBS = [
-    Sub("average", run_method("average"), replay, quick=4000, thorough=150000),
+    Sub("average", run_method("average"), replay, quick=4000, thorough=225000),
     Sub("majority", run_method("majority"), replay, quick=2500,
-        thorough=80000),
-    Sub("stride", run_method("stride"), replay, quick=1500, thorough=40000),
-    Sub("unsupported", run_bad, replay, quick=800, thorough=10000),
-    Sub("large", run_large, replay, quick=24, thorough=600, shards=6),
+        thorough=120000),
+    Sub("stride", run_method("stride"), replay, quick=1500, thorough=60000),
+    Sub("unsupported", run_bad, replay, quick=800, thorough=15000),
+    Sub("large", run_large, replay, quick=24, thorough=900, shards=6),
 ]
